@@ -62,7 +62,11 @@ func (lifecycle *Lifecycle) Error(e ...error) {
 
 // Errors return lifecycle error array
 func (lifecycle *Lifecycle) Errors() []error {
-	return goaterr.AppendError(lifecycle.errors, lifecycle.ctx.Err())
+	lifecycle.mutex.Lock()
+	defer lifecycle.mutex.Unlock()
+	errs := make([]error, len(lifecycle.errors), len(lifecycle.errors)+1)
+	copy(errs, lifecycle.errors)
+	return goaterr.AppendError(errs, lifecycle.ctx.Err())
 }
 
 // Step return lifecycle step
